@@ -117,6 +117,7 @@ func run(c *core.Ctx) error {
 		{"seq-named", "TypeContext.seq-named." + tier + ".cfg", 4, true},
 		{"seq-nest", "TypeContext.seq-nest." + tier + ".cfg", 4, true},
 		{"seq-tie", "TypeContext.seq-tie." + tier + ".cfg", 2, true},
+		{"seq-cmp", "TypeContext.seq-cmp." + tier + ".cfg", 2, true},
 		{"conc-lock", "TypeContext.conc-lock." + tier + ".cfg", 4, false},
 		{"conc-hook", "TypeContext.conc-hook." + tier + ".cfg", 4, true},
 	}
